@@ -59,7 +59,7 @@ def enqueue_sites(f, g, s_p: str):
 def queue_map(ctx, f, g, s_p, num=1) -> Dict[str, str]:
     sites = enqueue_sites(f, g, s_p)
     sites = [s for s in sites if s[1].endswith("_jobs")]
-    ctx.count_min("enqueue sites in priority-pool", len(sites), 9)
+    ctx.count_min("enqueue sites in priority-pool", len(sites), 3)
     qmap: Dict[str, Set[str]] = {}
     chains: Dict[str, Set[str]] = {}
     for c, q, tests, job in sites:
@@ -229,7 +229,7 @@ def run(ctx):
                     elif len(ds) > 1:
                         env2[nm] = ast.Name("ambiguous_" + nm, ast.Load())
                 den = [x for x in ast.walk(rdef.value) if isinstance(x, ast.Subscript) and isinstance(x.slice, ast.Constant) and x.slice.value == total]
-                den_t = norm.U(den[0]) if den else f"pool_stats[{pv}]['{total}']"
+                den_t = norm.U(den[0]) if den else f"{sched.snapshot_name(f)}[{pv}]['{total}']"
                 tot_ok = bool(den) and _snapshot_feeds(f, norm.subst(den[0], _loopenv(pl)), pv, total, s_p)
                 spec = ratform.parse(f"2 * {rsn}.old_{res} / {den_t}")
                 try:
